@@ -722,19 +722,25 @@ func c01R6(ic *IC, r *Report) {
 		var problems []string
 		multi := false
 		ast.Inspect(fl.Body, func(m ast.Node) bool {
-			rs, ok := m.(*ast.RangeStmt)
-			if !ok {
-				return true
-			}
-			id, ok := unparen(rs.X).(*ast.Ident)
-			if !ok || ic.Info.ObjectOf(id) != srcSlice {
-				return true
-			}
-			multi = true
+			// any loop of the closure: a loop over the sources, or a loop over the destinations
+			// (or a counting loop) that evaluates the sources by index
+			var rsBody *ast.BlockStmt
 			var sv types.Object
-			if vid, ok := rs.Value.(*ast.Ident); ok {
-				sv = ic.Info.ObjectOf(vid)
+			switch lp := m.(type) {
+			case *ast.RangeStmt:
+				rsBody = lp.Body
+				if id, ok := unparen(lp.X).(*ast.Ident); ok && ic.Info.ObjectOf(id) == srcSlice {
+					multi = true
+					if vid, ok := lp.Value.(*ast.Ident); ok {
+						sv = ic.Info.ObjectOf(vid)
+					}
+				}
+			case *ast.ForStmt:
+				rsBody = lp.Body
+			default:
+				return true
 			}
+			rs := struct{ Body *ast.BlockStmt }{rsBody}
 			// does this loop evaluate the sources (call the range value or an element of the slice)?
 			evaluates := false
 			ast.Inspect(rs.Body, func(k ast.Node) bool {
@@ -757,6 +763,7 @@ func c01R6(ic *IC, r *Report) {
 			if !evaluates {
 				return true
 			}
+			multi = true
 			// stores in the loop body
 			ast.Inspect(rs.Body, func(k ast.Node) bool {
 				switch x := k.(type) {
@@ -793,6 +800,21 @@ func c01R6(ic *IC, r *Report) {
 						se := unparen(x.Fun).(*ast.SelectorExpr)
 						base := rootIdent(se.X)
 						if base == nil {
+							// the receiver is the result of a generator call, d(f): a destination
+							if _, isCall := unparen(se.X).(*ast.CallExpr); isCall {
+								uses := false
+								for _, a := range x.Args {
+									ast.Inspect(a, func(q ast.Node) bool {
+										if qid, ok := q.(*ast.Ident); ok && ((sv != nil && ic.Info.ObjectOf(qid) == sv) || ic.Info.ObjectOf(qid) == srcSlice) {
+											uses = true
+										}
+										return true
+									})
+								}
+								if uses {
+									problems = append(problems, "the loop evaluating the sources sets a destination directly ("+types.ExprString(x)+" at "+ic.pos(x.Pos())+")")
+								}
+							}
 							return true
 						}
 						bo := ic.Info.ObjectOf(base)
@@ -806,7 +828,7 @@ func c01R6(ic *IC, r *Report) {
 						usesSrc := false
 						for _, a := range x.Args {
 							ast.Inspect(a, func(q ast.Node) bool {
-								if qid, ok := q.(*ast.Ident); ok && sv != nil && ic.Info.ObjectOf(qid) == sv {
+								if qid, ok := q.(*ast.Ident); ok && ((sv != nil && ic.Info.ObjectOf(qid) == sv) || ic.Info.ObjectOf(qid) == srcSlice) {
 									usesSrc = true
 								}
 								return true
